@@ -1,7 +1,13 @@
 // c20: correspondence + direct oracles for the NTS key exchange (net/ntske, core/server).
+//
+// C20_PART=timed restricts the run to the timed-delivery stream (h.GenPaused: the production
+// client against scripted TLS / QUIC peers that pause inside the response); that is how C14
+// lists this harness. Without it everything runs.
 package main
 
 import (
+	"os"
+
 	"verifharness/cmd/c20/h"
 	"verifharness/lib"
 )
@@ -9,12 +15,18 @@ import (
 func main() {
 	lib.Main(h.Exec, func(c *lib.Ctx) {
 		root := c.Rand
+		if os.Getenv("C20_PART") == "timed" {
+			h.GenPaused(c)
+			return
+		}
 		h.GenFetcher(c)
 		if h.PeerSawOtherSource > 0 {
 			c.Count("observed:key-exchange-host-differs-from-client-source-address")
 		} else {
 			c.NotExecuted("no exchange in which the key-exchange host differed from the client's source address (loopback aliases unavailable?)")
 		}
+		c.Rand = root
+		h.GenPaused(c)
 		c.Rand = root
 		h.GenServerMsg(c)
 		c.Rand = root
